@@ -101,6 +101,81 @@ let register (reg : string -> (string list -> string) -> unit) : unit =
     | [s] -> (match FrmJ2k.j2k_walk (bytes_of_hex s) with
               | FrmBase.WOk h -> j2k_reply h | FrmBase.WBad (r, o) -> bad r o)
     | _ -> "?");
+  (* ---- writer models ---- *)
+  (* frm_write_segment <marker 0..65535> <hexdata> -> hex *)
+  reg "frm_write_segment" (fun a -> match a with
+    | [m; d] -> hex_of_bytes (FrmWriters.write_segment (z_of_int (int_of_string m)) (bytes_of_hex d))
+    | _ -> "?");
+  (* frm_huff <bits,n,bits,n,...> -> hex of WriteBits...;Flush *)
+  reg "frm_huff" (fun a -> match a with
+    | [ops] ->
+      let rec pairs l = match l with x :: y :: r -> (x, y) :: pairs r | _ -> [] in
+      hex_of_bytes (FrmWriters.huff_encode (pairs (zlist_of_string ops)))
+    | _ -> "?");
+  (* frm_bio <bit,bit,...> -> hex of writeBit...;flush *)
+  reg "frm_bio" (fun a -> match a with
+    | [bits] -> hex_of_bytes (FrmWriters.bio_encode (zlist_of_string bits))
+    | _ -> "?");
+  (* frm_sof <kind> <p> <h> <w> <nc> -> hex payload; kind baseline|seq12|lossless *)
+  reg "frm_sof" (fun a -> match a with
+    | [k; p; h; w; nc] ->
+      let z s = z_of_int (int_of_string s) in
+      hex_of_bytes (match k with
+        | "baseline" -> FrmWriters.baseline_sof0 (z h) (z w) (z nc)
+        | "seq12" -> FrmWriters.seq12_sof1 (z h) (z w)
+        | _ -> FrmWriters.lossless_sof3 (z p) (z h) (z w) (z nc))
+    | _ -> "?");
+  (* ---- C17 guards ---- *)
+  let z s = z_of_int (int_of_string s) in
+  let eargs len w h c p x = { FrmValidate.a_len = z len; a_w = z w; a_h = z h; a_c = z c; a_p = z p; a_x = z x } in
+  (* frm_accepts <enc> <len> <w> <h> <c> <p> <x> -> <accepts><representable> e.g. "10" *)
+  reg "frm_accepts" (fun a -> match a with
+    | [enc; len; w; h; c; p; x] ->
+      let e = eargs len w h c p x in
+      let (acc, rep) = (match enc with
+        | "baseline" -> (FrmValidate.baseline_accepts e, FrmValidate.baseline_representable e)
+        | "extended" -> (FrmValidate.extended_accepts e, FrmValidate.extended_representable e)
+        | "lossless" -> (FrmValidate.lossless_accepts e, FrmValidate.lossless_representable e)
+        | "sv1" -> (FrmValidate.sv1_accepts e, FrmValidate.sv1_representable e)
+        | "jls" -> (FrmValidate.jls_accepts e, FrmValidate.jls_representable e)
+        | "jls-near" -> (FrmValidate.jlsnear_accepts e, FrmValidate.jlsnear_representable e)
+        | _ -> failwith "enc") in
+      string01_of_bool acc ^ string01_of_bool rep
+    | _ -> "?");
+  (* frm_j2k_accepts len w h c p levels cbw cbh layers prog tw th quality lossless -> "ab" *)
+  reg "frm_j2k_accepts" (fun a -> match a with
+    | [len; w; h; c; p; lv; cbw; cbh; ly; pr; tw; th; q; ll] ->
+      let k = { FrmValidate.k_len = z len; k_w = z w; k_h = z h; k_c = z c; k_p = z p; k_levels = z lv;
+                k_cbw = z cbw; k_cbh = z cbh; k_layers = z ly; k_prog = z pr; k_tw = z tw; k_th = z th;
+                k_quality = z q; k_lossless = (ll = "1") } in
+      string01_of_bool (FrmValidate.j2k_accepts k) ^ string01_of_bool (FrmValidate.j2k_representable k)
+    | _ -> "?");
+  let oc o = match o with Base.Ok _ -> "ok" | Base.Err -> "err" | Base.Panic -> "panic" | Base.OutOfFuel -> "fuel" in
+  (* frm_rle_outcome len w h ba spp planar -> ok|err|panic followed by representable 0/1 *)
+  reg "frm_rle_outcome" (fun a -> match a with
+    | [len; w; h; ba; spp; pl] ->
+      let r = { FrmValidate.r_len = z len; r_w = z w; r_h = z h; r_ba = z ba; r_spp = z spp; r_planar = z pl } in
+      oc (FrmValidate.rle_outcome r) ^ ":" ^ string01_of_bool (FrmValidate.rle_representable r)
+    | _ -> "?");
+  (* frm_codec <ts> nil_old nil_new nil_fi w h spp bs ba planar nframes flen pkind param param_int *)
+  reg "frm_codec" (fun a -> match a with
+    | [ts; no; nn; nf; w; h; spp; bs; ba; pl; nfr; fl; pk; pv; pi] ->
+      let c = { FrmValidate.c_nil_old = (no = "1"); c_nil_new = (nn = "1"); c_nil_fi = (nf = "1");
+                c_w = z w; c_h = z h; c_spp = z spp; c_bs = z bs; c_ba = z ba; c_planar = z pl;
+                c_nframes = z nfr; c_flen = z fl; c_pkind = z pk; c_param = z pv; c_param_int = (pi = "1") } in
+      let b f = if f c then "ok" else "err" in
+      (match ts with
+       | ".50" -> b FrmValidate.codec_baseline_accepts
+       | ".51" -> b FrmValidate.codec_extended_accepts
+       | ".57" -> b FrmValidate.codec_lossless57_accepts
+       | ".70" -> b FrmValidate.codec_sv1_accepts
+       | ".80" -> b FrmValidate.codec_jls_accepts
+       | ".81" -> b FrmValidate.codec_jlsnear_accepts
+       | ".90" | ".91" | ".92" | ".93" -> b FrmValidate.codec_j2k_accepts
+       | ".201" | ".202" | ".203" -> b FrmValidate.codec_htj2k_accepts
+       | "RLE" -> oc (FrmValidate.codec_rle_outcome c)
+       | _ -> "?")
+    | _ -> "?");
   ()
 
 let () = registrars := register :: !registrars
